@@ -3,7 +3,7 @@
    hour of week; unbounded); the model is Model/CalTrack.v over the tables of
    Generated/CalTrackTables.v, which are regenerated from /repo on every run, so the finite theorems below
    are re-established against what the source says now. *)
-From Coq Require Import ZArith QArith Qminmax List Bool String PrimFloat.
+From Coq Require Import ZArith QArith Qminmax List Bool String Ascii PrimFloat.
 From V Require Import Generated.CalTrackTables Model.CalTrack Proofs.CalTrackProofs Proofs.CalTrackTableProofs.
 Import ListNotations.
 Local Open Scope string_scope.
@@ -165,6 +165,68 @@ Theorem C18_how_onto : forall k, (0 <= k < 168)%Z ->
 Proof. exact how_onto_l. Qed.
 Print Assumptions C18_how_onto.
 
+(* ---- extensions: dropped columns / absent models, fitted endpoint lists, both occupancy groups, wrapper ---------- *)
+Theorem C18_weights_in_0_half_1 : forall type t, In (type, t) segment_tables -> forall s, In s t -> forall m, In m months ->
+  (seg_weight s m == 0 \/ seg_weight s m == 1 # 2 \/ seg_weight s m == 1)%Q.
+Proof. exact weights_in_0_half_1. Qed.
+Print Assumptions C18_weights_in_0_half_1.
+
+(* whichever months the predicted index covers (columns of zero total weight are dropped) and whichever segment
+   models the fitted model holds: nothing but the hour's own month model contributes to its prediction *)
+Theorem C18_predicted_only_by_own_model : forall present fitted m f w, In m months ->
+  In (f, w) (prediction_terms_on present fitted "three_month_weighted" m) ->
+  own_segment (tbl "three_month_weighted") m = Some f /\ w = 1%Q.
+Proof. exact predicted_only_by_own_l. Qed.
+Print Assumptions C18_predicted_only_by_own_model.
+
+(* ... and it is exactly that model when it exists; an hour whose own model is absent gets no prediction (NaN),
+   never a neighbour's *)
+Theorem C18_predict_with_missing_models : forall present fitted m, In m months -> In m present ->
+  exists own, own_segment (tbl "three_month_weighted") m = Some own /\
+    prediction_terms_on present fitted "three_month_weighted" m = (if mem_str own fitted then [(own, 1%Q)] else []).
+Proof. exact predict_on_l. Qed.
+Print Assumptions C18_predict_with_missing_models.
+
+(* the endpoint lists the feature processors use are the flagged candidates in candidate order: always increasing,
+   so the hypothesis of the bin theorems holds for every combination of keep-flags *)
+Theorem C18_candidate_endpoints_increasing : increasing default_bins.
+Proof. exact candidates_increasing_l. Qed.
+Print Assumptions C18_candidate_endpoints_increasing.
+
+Theorem C18_sublist_increasing : forall flags l, increasing l -> increasing (select flags l).
+Proof. exact select_increasing. Qed.
+Print Assumptions C18_sublist_increasing.
+
+Theorem C18_fitted_endpoints_increasing : forall flags, increasing (endpoints_of_flags flags).
+Proof. exact endpoints_increasing_l. Qed.
+Print Assumptions C18_fitted_endpoints_increasing.
+
+Theorem C18_bins_sum_to_T_any_flags : forall flags T,
+  (sum QOps (bin_features QOps T (endpoints_of_flags flags)) == T)%Q.
+Proof. exact bins_sum_any_flags_l. Qed.
+Print Assumptions C18_bins_sum_to_T_any_flags.
+
+(* both feature groups of an hour together hold its temperature exactly once, the other group is all zero *)
+Theorem C18_occupancy_features_sum_to_T : forall (b : bool) (t : Q) eo eu, increasing eo -> increasing eu ->
+  let ou := occupancy_split QOps (Some b) (Some t) eo eu in
+  exists o u, fst ou = map Some o /\ snd ou = map Some u /\ (sum QOps o + sum QOps u == t)%Q /\
+              (if b then Forall (fun x => x = 0%Q) u else Forall (fun x => x = 0%Q) o).
+Proof. exact occupancy_features_sum_l. Qed.
+Print Assumptions C18_occupancy_features_sum_to_T.
+
+(* wrapper.py files the uncertainty figures (n, n', MSE, mean) of calendar month m under the fitted segment whose
+   full-weight month is m, and every fitted segment name has a known month key *)
+Theorem C18_wrapper_month_key : forall m, In m months ->
+  exists own, own_segment (tbl "three_month_weighted") m = Some own /\
+              unc_segment (map seg_name (tbl "three_month_weighted")) m = Some own.
+Proof. exact wrapper_month_key_l. Qed.
+Print Assumptions C18_wrapper_month_key.
+
+Theorem C18_wrapper_keys_known : forall s, In s (tbl "three_month_weighted") ->
+  exists a n, month_key (seg_name s) = Some a /\ assoc a wrapper_month_dict = Some n.
+Proof. exact wrapper_keys_known_l. Qed.
+Print Assumptions C18_wrapper_keys_known.
+
 (* ---- non-vacuity witnesses ------------------------------------------------------------------------------ *)
 Example C18_ex_own_january : own_segment (tbl "three_month_weighted") 1 = Some "dec-jan-feb-weighted".
 Proof. vm_compute. reflexivity. Qed.
@@ -201,3 +263,27 @@ Example C18_ex_nan_occupancy_keeps_both :
 Proof. exact occupancy_nan_keeps_both_l. Qed.
 Example C18_ex_how : hour_of_week 6 23 = 167%Z /\ hour_of_week 0 0 = 0%Z /\ hour_of_week 2 5 = 53%Z.
 Proof. vm_compute. repeat split. Qed.
+Example C18_ex_missing_model :
+  prediction_terms_on [1; 2]%Z ["jan-feb-mar-weighted"] "three_month_weighted" 1 = [] /\
+  prediction_terms_on [1; 2]%Z ["jan-feb-mar-weighted"] "three_month_weighted" 2 = [("jan-feb-mar-weighted", 1%Q)].
+Proof. vm_compute. split; reflexivity. Qed.
+Example C18_ex_dropped_columns :
+  map seg_name (filter (kept_segment [1; 2]%Z) (tbl "one_month")) = ["jan"; "feb"].
+Proof. vm_compute. reflexivity. Qed.
+Example C18_ex_endpoints_of_flags :
+  endpoints_of_flags [true; false; true; false; false; true] = [30; 55; 90]%Q.
+Proof. vm_compute. reflexivity. Qed.
+Example C18_ex_occupancy_sum :
+  let ou := occupancy_split QOps (Some false) (Some 70%Q) [30; 65]%Q [45; 55; 90]%Q in
+  map (option_map Qred) (snd ou) = [Some 45; Some 10; Some 15; Some 0]%Q /\ fst ou = [Some 0; Some 0; Some 0]%Q.
+Proof. vm_compute. split; reflexivity. Qed.
+Example C18_ex_month_key :
+  month_key "dec-jan-feb-weighted" = Some "jan" /\ unc_segment (map seg_name (tbl "three_month_weighted")) 12 = Some "nov-dec-jan-weighted".
+Proof. vm_compute. split; reflexivity. Qed.
+Example C18_ex_str_replace_split :
+  str_split "-"%char (str_replace "-weighted" "" "a-weighted-b-weighted") = ["a"; "b"].
+Proof. vm_compute. reflexivity. Qed.
+(* the two regenerated candidate lists (rationals for the theorems, binary64 for the execution) are the same numbers;
+   an Example rather than a Theorem: its proof computes with primitive floats, which Print Assumptions lists *)
+Example C18_ex_candidate_endpoints_same_numbers : map Q2F default_bins = default_bins_f.
+Proof. exact default_bins_same_l. Qed.
